@@ -218,7 +218,11 @@ theorem hp_hofKeys (c : ICtx) (a : Nat) : ∀ (xs : Seq) (D : Env) (acc : List (
 omit hs in
 theorem hp_evArith (op : AOp) (a b : Expr) (c : ICtx) (D : Env) : HP (evArith ev op a b c D) := by
   unfold evArith
-  exact HP.bnd (hev _ _ _) (fun _ => HP.bnd (hev _ _ _) (fun _ => HP.bnd (HP.lift _) (fun _ => HP.ret _)))
+  apply HP.bnd (hev _ _ _); intro x
+  split
+  · exact HP.thr _
+  · exact HP.ret _
+  · exact HP.bnd (hev _ _ _) (fun _ => HP.bnd (HP.lift _) (fun _ => HP.ret _))
 
 omit hs in
 theorem hp_evCompare (op : COp) (a b : Expr) (c : ICtx) (D : Env) : HP (evCompare ev op a b c D) := by
@@ -281,6 +285,11 @@ theorem hp_step (e : Expr) (c : ICtx) (D : Env) : HP (step cfg ev e c D) := by
     split
     · exact hp_partialApply cfg hs ev hev _ _ _ _
     · exact HP.bnd (hp_evalList ev hev _ _ _) (fun _ => hp_callFn cfg hs ev hev _ _ _ _)
+  | spart b args =>
+    simp only [step]
+    split
+    · exact HP.bnd (hp_evalArgs ev hev _ _ _) (fun _ => HP.bnd (HP.alloc _) (fun _ => HP.ret _))
+    · exact HP.thr _
   | par e => exact hev _ _ _
   | smap a b =>
     simp only [step]
